@@ -88,6 +88,17 @@ def handle (j : Json) : Json :=
       match markLines lines ln col with
       | .ok ls => pure (Json.mkObj [("ok", Json.arr (ls.map strToJson).toArray), ("source", strToJson (joinNl ls))])
       | .error .indexError => pure (Json.mkObj [("err", Json.str "IndexError")])
+    | "location_entry" =>
+      -- one result of location(): [line, col] and file of the raw declaration, the analysed file, the cursor
+      let file ← fstr j "file"
+      let src ← fstr j "srcfile"
+      let ln ← jnat j "ln"
+      let col ← jnat j "col"
+      let cl ← jnat j "cln"
+      let cc ← jnat j "ccol"
+      let e := locationEntry src (cl, cc) { name := [], declaredAt := (ln, col), filename := file }
+      pure (Json.mkObj [("loc", posToJson e.loc), ("file", strToJson e.file),
+                        ("legacy", posToJson (locationEntryLegacy { name := [], declaredAt := (ln, col), filename := file }).loc)])
     | "proposals" =>
       let names ← fstrs j "names"
       pure (Json.mkObj [("ok", Json.arr ((proposals (names.map (fun n => (n, ())))).map strToJson).toArray)])
